@@ -53,6 +53,10 @@ def kernel(w, rep, fn, true_name="labels", pred_name="preds"):
                     good.append((li, True))
                 elif d[1] == t0 and conds == (("cmp", "!=", *sorted([t0, t1], key=repr)),):
                     good.append((li, "true-only"))  # the true labels of the misclassified pairs
+    if len(good) > 1:
+        # several counting passes (one per kind of error): a different way of counting, which these rules do not read
+        raise AnalysisError(f"{fn.qual}: expected one counting pass over zip(true labels, predictions), found {len(good)} "
+                            f"(loop domains: {[show(l.domain)[:60] for l in loops]}); this form is outside the analysable fragment")
     rep.fn("KERNEL-zip", fn, "one pass over zip(true labels, predictions)", len(good) == 1,
            f"loop domains: {[show(l.domain)[:100] for l in loops]}")
     if len(good) != 1:
@@ -280,12 +284,17 @@ def check_purity(rep, repo):
             if t[0] == "call" and t[1] == cm[1] and t[2][:2] == cm[2] and all(x == ("const", None) for x in t[2][2:]) \
                     and all(v == ("const", None) for _, v in t[3]):
                 cm = t
+        vret = values_of(rets[0].value)
+        cmv = values_of(cm)
+        sizes = [("call", ("builtin", "len"), (("param", "labels"),), ()), ("attr", ("param", "labels"), "size"),
+                 ("idx", ("attr", ("param", "labels"), "shape"), ("const", 0))]
         for mx in ("numpy.max", "numpy.amax"):
-            inner = ("call", ("mod", mx), (cm,), (("axis", ("const", 0)),))
-            want = ("bin", "/", ("call", ("mod", "numpy.sum"), (inner,), ()),
-                    ("call", ("builtin", "len"), (("param", "labels"),), ()))
-            if rets[0].value == want:
-                ok = True
+            for cmx in (cm, cmv):
+                inner = ("call", ("mod", mx), (cmx,), (("axis", ("const", 0)),))
+                for n_t in sizes:
+                    want = ("bin", "/", ("call", ("mod", "numpy.sum"), (inner,), ()), n_t)
+                    if rets[0].value == want or vret == want:
+                        ok = True
         ok = ok or _purity_loop(w, rets[0].value, cm)
     rep.fn("PUR", fi, "purity = sum over predicted groups of max over true classes of M[true][pred], / N", ok,
            f"returns '{show(rets[0].value)[:160] if rets else '?'}' (the matrix must be confusion_matrix(labels, preds) "
